@@ -508,3 +508,14 @@ func (c *Ctx) uninterpreted() bool {
 	}
 	return false
 }
+
+func (c *Ctx) declRuneCount() {
+	if c.declared["ext.runecount"] {
+		return
+	}
+	c.uses["str"] = true
+	c.uses["quant"] = true
+	c.declareFun("ext.runecount", []string{"String"}, "Int")
+	c.axioms = append(c.axioms, "(forall ((s String)) (! (and (<= 0 (ext.runecount s)) (<= (ext.runecount s) (str.len s))) :pattern ((ext.runecount s))))")
+	c.trusted["utf8.RuneCountInString is uninterpreted with 0 <= n <= len(s)"] = true
+}
